@@ -76,10 +76,17 @@ def vs_of(v):
     return False
 
 
+COLLAPSED = []      # objects whose attributes of different levels were collapsed into one level: from there on a level is an over-approximation
+
+
 def flat(v):
     """collapse any value to a PV"""
     if isinstance(v, PV):
         return v
+    if isinstance(v, ObjV) and v.attrs:
+        lv = {lvl_of(x) for x in v.attrs.values()}
+        if len(lv) > 1 and max(lv) >= RAW:
+            COLLAPSED.append(getattr(v, "cls", None))
     return PV(lvl_of(v), prov_of(v), vs=vs_of(v))
 
 
@@ -129,9 +136,55 @@ class Pattern(Interp):
             return PV(PAT, v.prov, ref=v.ref)
         return v
 
+    @staticmethod
+    def _zero_guard_skips_noops(n, ctx):
+        """`if v == 0: return / continue` (or `if v != 0: BODY`) where everything that is skipped is `X += e` / `X -= e` with the tested name v a
+        factor of the product e: the skipped updates add v * (...) = 0, so both ways through the branch compute the same values"""
+        if ctx.func is None or not isinstance(n, ast.Compare) or len(n.ops) != 1 or not isinstance(n.ops[0], (ast.Eq, ast.NotEq)):
+            return False
+        a, b = n.left, n.comparators[0]
+        if isinstance(a, ast.Constant):
+            a, b = b, a
+        if not (isinstance(a, ast.Name) and isinstance(b, ast.Constant) and b.value == 0 and not isinstance(b.value, bool)):
+            return False
+        v = a.id
+
+        def factor(e):
+            if isinstance(e, ast.Name):
+                return e.id == v
+            if isinstance(e, ast.BinOp) and isinstance(e.op, (ast.Mult, ast.MatMult)):
+                return factor(e.left) or factor(e.right)
+            if isinstance(e, ast.UnaryOp) and isinstance(e.op, ast.USub):
+                return factor(e.operand)
+            if isinstance(e, ast.Call) and (dotted_of(e.func) or "") in ("np.outer", "numpy.outer", "np.dot", "numpy.dot", "np.multiply", "numpy.multiply") and len(e.args) == 2:
+                return factor(e.args[0]) or factor(e.args[1])
+            return False
+
+        def noops(stmts):
+            return bool(stmts) and all(isinstance(st, ast.AugAssign) and isinstance(st.op, (ast.Add, ast.Sub)) and factor(st.value) for st in stmts)
+        for blk_owner in ast.walk(ctx.func.node):
+            for fld in ("body", "orelse"):
+                blk = getattr(blk_owner, fld, None)
+                if not isinstance(blk, list):
+                    continue
+                for k_, st in enumerate(blk):
+                    if isinstance(st, ast.If) and st.test is n and not st.orelse:
+                        if isinstance(n.ops[0], ast.NotEq):
+                            return noops(st.body)
+                        last = isinstance(blk_owner, (ast.FunctionDef, ast.For, ast.While))      # the rest of the function body / of the loop body is what is skipped
+                        if len(st.body) == 1 and isinstance(st.body[0], ast.Return) and st.body[0].value is None and isinstance(blk_owner, ast.FunctionDef):
+                            return noops(blk[k_ + 1:])
+                        if len(st.body) == 1 and isinstance(st.body[0], ast.Continue) and isinstance(blk_owner, (ast.For, ast.While)) and fld == "body":
+                            return noops(blk[k_ + 1:])
+                        return False
+        return False
+
     def sink(self, v, n, ctx, kind):
         v = flat(v)
         if v.lvl != ARITH:
+            return
+        if kind == "if condition" and self._zero_guard_skips_noops(n, ctx):
+            self.exempted[(ctx.qname, norm(n)[:80])] = "the branch only skips updates that add a multiple of the tested quantity (zero there): both ways compute the same values"
             return
         for (q, line, text, rel) in (v.prov or {(ctx.qname, getattr(n, "lineno", 0), norm(n)[:160],
                                                   ctx.func.module.relpath if ctx.func else "?")}):
